@@ -513,7 +513,9 @@ func (f *Frame) callByContract(v ssa.Value, in ssa.Instruction, sig *types.Signa
 	// (they are discharged by a different back end, named in the clause's remark); used at call
 	// sites and listed in the trusted base of every unit that uses them
 	for _, cl := range c.ClausesOf("assume") {
-		if !cl.ForProp(c, u.Prop) {
+		// (a closure unit proves ALL clauses of its contract, also those tagged for other properties,
+		// so it may use the assume clauses those clauses rest on; they are listed as trusted)
+		if !cl.ForProp(c, u.Prop) && !u.closure {
 			continue
 		}
 		t, err := env.evalBool(cl.Text)
